@@ -87,20 +87,29 @@ class Node:
         """Returns the value of a scalar node.
 
         Use :meth:`is_scalar` to check which type the node has.
+
+        Raises:
+            yatiml.SeasoningError: If the text of the node is not valid
+                    for its (explicitly given) tag, e.g. ``!!int abc``.
         """
         if self.yaml_node.tag == 'tag:yaml.org,2002:str':
             return str(self.yaml_node.value)
         # Parse the text like PyYAML does when loading, so that e.g. 0x1F,
         # 1_000, .inf and .nan give the value that loading would give.
-        if self.yaml_node.tag == 'tag:yaml.org,2002:int':
-            return cast(int, _scalar_constructor.construct_yaml_int(
-                self.yaml_node))
-        if self.yaml_node.tag == 'tag:yaml.org,2002:float':
-            return cast(float, _scalar_constructor.construct_yaml_float(
-                self.yaml_node))
-        if self.yaml_node.tag == 'tag:yaml.org,2002:bool':
-            return cast(bool, _scalar_constructor.construct_yaml_bool(
-                self.yaml_node))
+        try:
+            if self.yaml_node.tag == 'tag:yaml.org,2002:int':
+                return cast(int, _scalar_constructor.construct_yaml_int(
+                    self.yaml_node))
+            if self.yaml_node.tag == 'tag:yaml.org,2002:float':
+                return cast(float, _scalar_constructor.construct_yaml_float(
+                    self.yaml_node))
+            if self.yaml_node.tag == 'tag:yaml.org,2002:bool':
+                return cast(bool, _scalar_constructor.construct_yaml_bool(
+                    self.yaml_node))
+        except (ValueError, KeyError, IndexError) as e:
+            # the text is not valid for an explicitly given tag
+            raise SeasoningError('Invalid value {}: {}'.format(
+                self.yaml_node.value, e))
         if self.yaml_node.tag == 'tag:yaml.org,2002:null':
             return None
         raise RuntimeError('This node with tag "{}" is not of the right type'
@@ -1094,9 +1103,8 @@ class UnknownNode:
         """
         try:
             return node.get_value()
-        except (ValueError, KeyError, IndexError) as e:
-            raise RecognitionError(
-                    'Invalid value {}: {}'.format(node.yaml_node.value, e))
+        except SeasoningError as e:
+            raise RecognitionError(str(e))
 
     def require_attribute_value_not(
             self, attribute: str,
